@@ -1718,7 +1718,7 @@ fn run_sims(args: &Args) {
                 rep.emit(&mut out)
             }
             died => {
-                let (line, mut ident) = died_ident(died);
+                let (mut line, mut ident) = died_ident(died);
                 let stderr = if let CaseOutcome::Died { stderr, .. } = died { stderr.chars().take(600).collect::<String>() } else { String::new() };
                 // regenerate the description the dead worker was running, so the case can be replayed
                 let op = match specs[c].strip_prefix("gen ") {
@@ -1729,6 +1729,9 @@ fn run_sims(args: &Args) {
                         let p = gen_plan(&mut Rng::new(seed), id);
                         if p.label.contains("shared-net-second") {
                             ident = "shared-network-listed-second not-delivered".into();
+                        }
+                        if p.label.contains("shared-net-second") || p.label.contains("same-kind-twice") {
+                            line = "not-compared".into();
                         }
                         format!("{} {}", if p.label.contains("shared-net-second") || p.label.contains("same-kind-twice") { "run-known" } else { "run" }, p.tree.tokens(false))
                     }
